@@ -81,6 +81,7 @@ def run(rep, tier):
     colsub(rep)
     linetext(rep, c)
     merge(rep, c)
+    linecursor(rep, c)
 
 
 # ------------------------------------------------------------------ CHECKED
@@ -887,3 +888,53 @@ def merge(rep, c):
                             "the %s of the merged span is `%s`, computed from one argument only: with the spans given in "
                             "reverse order, or one inside the other, the result does not cover both"
                             % (nm, hirq.expr_text(e)[:50]))
+
+
+# ------------------------------------------------------------------ LINECURSOR
+
+def linecursor(rep, c):
+    r = rep.rule("C10.LINECURSOR", 1,
+                 "find_line_start looks for the last line break strictly before the position itself: what its search "
+                 "compares offsets with (or slices the input by) is `self.pos`, not a value computed from it - a clamped or "
+                 "shifted cursor gives the previous line for the position just after a trailing newline, so line_of() "
+                 "disagrees with line_col()")
+    fn = c.fn(POSITION + "::find_line_start")
+    if fn is None:
+        r.lost("Position::find_line_start")
+        return
+    lets = hirq.lets(fn["body"])
+    n = 0
+    for x in walk(fn["body"]):
+        cand = None
+        if kind(x) == "Binary" and x["op"] in ("<", "<=", ">", ">=") and "usize" in (str(peel(x["l"]).get("ty", "")) + str(peel(x["r"]).get("ty", ""))):
+            # `i >= <cursor>` inside the search closure
+            for s in (x["l"], x["r"]):
+                s0 = peel(s)
+                if kind(s0) == "Field" and s0["name"] == "pos":
+                    cand = s0
+                elif kind(s0) == "Path" and s0.get("res") == "local" and s0["id"] in lets:
+                    cand = s0
+        elif kind(x) == "Index" and "str" in str(peel(x["base"]).get("ty", "")):
+            for y in walk(x["idx"]):
+                y0 = peel(y)
+                if (kind(y0) == "Field" and y0["name"] == "pos") or (kind(y0) == "Path" and y0.get("res") == "local" and y0["id"] in lets):
+                    cand = y0
+        if cand is None:
+            continue
+        src = cand
+        hops = 0
+        while kind(src) == "Path" and src.get("res") == "local" and src["id"] in lets and hops < 3:
+            src = peel(lets[src["id"]][0])
+            hops += 1
+        if not any(kind(y) == "Field" and y["name"] == "pos" for y in walk(src)):
+            continue        # not derived from the position at all (a loop index etc.)
+        n += 1
+        r.instance("cursor:%s" % hirq.expr_text(cand)[:20], where(x))
+        if not (kind(src) == "Field" and src["name"] == "pos"):
+            r.violation("cursor:computed", where(x),
+                        "find_line_start searches back from `%s`, a value computed from the position, not from the position: "
+                        "at the end of an input that ends in a newline it reports the previous line's start"
+                        % hirq.expr_text(src)[:50])
+    if n == 0:
+        r.note("find_line_start does not compare offsets with the position")
+        r.floor = 0
